@@ -1798,7 +1798,8 @@ class sptensor:
             return self.copy()
         idx = np.where(shapeArray > 1)[0]
         if idx.size == 0:
-            return self.vals.item()
+            # Every mode is a singleton: the single entry, or zero if it is not stored
+            return self.vals.item() if self.vals.size > 0 else 0.0
         siz = tuple(shapeArray[idx])
         if self.vals.size == 0:
             return ttb.sptensor(np.array([]), np.array([]), siz, copy=False)
